@@ -36,6 +36,7 @@ func runC03(c *engine.Ctx, tier string) {
 	getFilterBoundary(c, "C03.2")
 	mapOrder(c, "C03.3", []string{pkgCtlUtils, pkgProposalCtl, pkgTxCtlV3, pkgStoreCfgV2, pkgStoreCfgV3, pkgTreeV2, pkgTreeV3})
 	tombstones(c)
+	operationOrder(c)
 	persistTableSync(c, "C03.5a", pkgStoreCfgV2)
 	persistTable(c, "C03.5b", pkgStoreCfgV3)
 	removalsPersisted(c)
@@ -1433,4 +1434,76 @@ func persistTableSync(c *engine.Ctx, id, rel string) {
 		}
 	}
 	o.Site(rel + ".store: all five cells observed")
+}
+
+// operationOrder: C03.17 (seed C03-r41). gNMI processes the operations of one SetRequest as deletes, then
+// replaces, then updates: what is written later wins in the per-target maps the handler fills, so the handler
+// has to visit the three lists in that order (an update of a path that the same request also replaces wins).
+func operationOrder(c *engine.Ctx) {
+	o := c.Custom("C03.17", "K-order(operations)", "Server.Set visits req.GetDelete() before req.GetReplace() before req.GetUpdate() (separate loops in that order, or one loop over a slice that concatenates them in that order)",
+		"the stored configuration is the gNMI-sequential effect of the request: delete, replace, update")
+	defer o.Done(1)
+	sp, err := setPaths(c)
+	if err != nil {
+		o.Undecided("Server.Set", err.Error())
+		return
+	}
+	rank := func(rng string) []int {
+		// the operation lists a range expression mentions, in textual (= concatenation) order
+		type hit struct{ at, k int }
+		var hs []hit
+		for k, name := range []string{"gnmi.SetRequest.GetDelete()", "gnmi.SetRequest.GetReplace()", "gnmi.SetRequest.GetUpdate()"} {
+			for from := 0; ; {
+				j := strings.Index(rng[from:], name)
+				if j < 0 {
+					break
+				}
+				hs = append(hs, hit{from + j, k})
+				from += j + len(name)
+			}
+		}
+		sort.Slice(hs, func(i, j int) bool { return hs[i].at < hs[j].at })
+		var out []int
+		for _, h := range hs {
+			out = append(out, h.k)
+		}
+		return out
+	}
+	seenAll := false
+	for _, p := range sp {
+		if p.Lit != nil {
+			continue
+		}
+		var order []int
+		var pos token.Pos
+		for i := range p.Events {
+			e := &p.Events[i]
+			if e.Kind == engine.EvLoopEnter && e.Stack == "" {
+				if r := rank(e.Range); len(r) > 0 {
+					order = append(order, r...)
+					pos = e.Pos
+				}
+			}
+		}
+		if len(order) == 0 {
+			continue
+		}
+		o.Eval(1)
+		seen := map[int]bool{}
+		for i, k := range order {
+			seen[k] = true
+			if i > 0 && order[i-1] > k {
+				names := []string{"delete", "replace", "update"}
+				o.Fail(&engine.Violation{Key: "Server.Set|operation order", Pos: c.P.Pos(pos), Func: p.Root.Name(),
+					Msg: "the handler visits the " + names[order[i-1]] + " operations before the " + names[k] + " operations: gNMI applies delete, replace, update in that order, so what the later kind writes must win"})
+				return
+			}
+		}
+		if seen[0] && seen[1] && seen[2] {
+			seenAll = true
+		}
+	}
+	if seenAll {
+		o.Site("Server.Set: delete, replace, update visited in that order")
+	}
 }
